@@ -106,6 +106,111 @@ theorem bound_exec {s0 s : St} {ls : List Label} (hv : s0.v = .whileWait) (hi0 :
   | snoc he' hs ih =>
     exact bound_step ((exec_params he').1.trans hv) (inv_exec hi0 he') ih hs
 
+/-! ## the bound for executions WITHOUT spurious wake-ups (either construct) -/
+
+structure BoundNS (s : St) : Prop where
+  le : s.tc ≤ s.f
+  room : s.dpc = .create → s.tc < s.f
+  wok : s.dpc = .woken → s.tc < s.f
+  sg : s.dpc = .parked → s.sig = true → s.tc < s.f
+
+theorem boundNS_init (v : Variant) (f n : Nat) : BoundNS (init v f n) := by
+  constructor
+  · simp [init]
+  · simp only [init]; split <;> simp
+  · simp only [init]; split <;> simp
+  · simp only [init]; split <;> simp
+
+theorem locked_pos {ws : List W} {i : Nat} (h : ws[i]? = some W.locked) : 0 < ws.countP isLocked := by
+  rw [List.countP_pos_iff]
+  rw [List.getElem?_eq_some_iff] at h
+  obtain ⟨hi, he⟩ := h
+  exact ⟨W.locked, by rw [← he]; exact List.getElem_mem hi, rfl⟩
+
+theorem boundNS_step {s s' : St} {l : Label} (hi : Inv s) (hb : BoundNS s) (hsp : l.spurious = false)
+    (hs : step s l = some s') : BoundNS s' := by
+  have ⟨hle, hroom, hwok, hsg⟩ := hb
+  cases l with
+  | d a =>
+    cases a with
+    | lock =>
+      simp only [step] at hs
+      split at hs
+      · simp only [Option.some.injEq, roomTest] at hs
+        split at hs <;> subst hs <;> constructor <;> simp_all <;> omega
+      · simp only [Option.some.injEq, drainTest] at hs
+        split at hs <;> subst hs <;> constructor <;> simp_all
+      · simp at hs
+    | wait =>
+      simp only [step] at hs
+      split at hs <;> simp at hs <;> subst hs <;> constructor <;> simp_all
+    | wake sp =>
+      have : sp = false := by simpa [Label.spurious] using hsp
+      subst this
+      simp only [step] at hs
+      split at hs <;> (try split at hs) <;> simp at hs <;> subst hs <;> constructor <;> simp_all
+    | relock =>
+      simp only [step] at hs
+      split at hs
+      · split at hs
+        · simp only [Option.some.injEq] at hs; subst hs
+          constructor <;> simp_all
+        · simp only [Option.some.injEq, roomTest] at hs
+          split at hs <;> subst hs <;> constructor <;> simp_all
+      · simp only [Option.some.injEq, drainTest] at hs
+        split at hs <;> subst hs <;> constructor <;> simp_all
+      · simp at hs
+    | create j =>
+      simp only [step] at hs
+      split at hs <;> simp at hs
+      rename_i hd
+      obtain ⟨_, hs⟩ := hs
+      subst hs
+      have := hroom hd
+      constructor <;> simp <;> omega
+    | unlock =>
+      simp only [step] at hs
+      split at hs <;> simp at hs <;> subst hs <;> constructor <;> simp_all <;> (split <;> simp)
+    | ret =>
+      simp only [step] at hs
+      split at hs <;> simp at hs <;> subst hs <;> constructor <;> simp_all
+  | w i a =>
+    obtain ⟨hpre, hlk, rfl⟩ := w_step_facts hs
+    cases a with
+    | lock =>
+      have hon := hlk rfl
+      refine ⟨?_, ?_, ?_, ?_⟩
+      · simp only [wEffect]; omega
+      · intro hd
+        have hd' : s.dpc = .create := hd
+        have := hi.ownD.mpr (by rw [hd']; rfl)
+        rw [hon] at this; cases this
+      · intro hd; have := hwok hd; simp only [wEffect]; omega
+      · intro hd hs'; have := hsg hd hs'; simp only [wEffect]; omega
+    | signal =>
+      refine ⟨hle, hroom, hwok, ?_⟩
+      intro hd _
+      have hd' : s.dpc = .parked := hd
+      cases hsig : s.sig with
+      | true => exact hsg hd' hsig
+      | false =>
+        have hp := hi.park hd' hsig
+        have := locked_pos hpre
+        show s.tc < s.f
+        omega
+    | connectBegin | connectEnd | destroyBegin | destroyEnd | unlock =>
+      exact ⟨hle, hroom, hwok, hsg⟩
+
+theorem boundNS_exec {s0 s : St} {ls : List Label} (hi0 : Inv s0) (hb0 : BoundNS s0)
+    (he : Exec s0 ls s) (hns : ∀ l ∈ ls, l.spurious = false) : BoundNS s := by
+  induction he with
+  | nil => exact hb0
+  | snoc he' hs ih =>
+    rename_i ls0 s1 l0 s2
+    have h1 : ∀ l ∈ ls0, l.spurious = false := fun l hl => hns l (List.mem_append_left _ hl)
+    have h2 : l0.spurious = false := hns l0 (by simp)
+    exact boundNS_step (inv_exec hi0 he') (ih h1) h2 hs
+
 theorem flying_le_counted (ws : List W) : ws.countP flying ≤ ws.countP counted := by
   apply List.countP_mono_left
   intro w _ h; cases w <;> simp_all [flying, counted]
